@@ -409,6 +409,7 @@ def parametric_rule(ctx, repo):
                         return sum(np.exp(1j * np.pi * e_ * (t_ + sh_)) * m_ for t_, m_ in comps_)
                 return NotImplemented
             it = fdx.NumInterp({'self': self_obj}, call_hook=call_hook)
+            it.resolver = make_resolver(repo, ci.mod, fn)   # module-level helpers of the repository are followed
             try:
                 got = np.array(it.call(fn), dtype=complex)
             except (fdx.Unsupported, fdx.Raised) as ex:
